@@ -571,6 +571,11 @@ def call_closure(I, state, frame, bi, clo, call_args, span):
 def m_fn_call(I, state, frame, bi, t, args, span):
     tup = args[1] if len(args) > 1 else adt("tuple", {0: ()})
     fs = adt_variants(tup).get(0, ()) if tup[0] == "adt" else ()
+    c = deref(I, state, args[0]) if args[0][0] == "ref" else args[0]
+    if c[0] == "adt" and c[1].startswith("closure:"):
+        I.rec.put("closure_call", I.sitekey(frame, bi, -1),
+                  dict(fn=frame.body.name, bb=bi, span=span, closure=c[1][len("closure:"):],
+                       args=[(str_of(I, state, f) or f) for f in fs], stack=frame.stack))
     return call_closure(I, state, frame, bi, args[0], list(fs), span)
 
 
@@ -609,10 +614,34 @@ def coll_add(I, state, a, elem, k=None):
     if cur is None:
         return
     if cur[0] == "coll":
+        elem = with_state_constraint(I, state, elem)
         e2 = anonymise(elem)
-        new = ("coll", join(cur[1], e2), join(cur[2], k) if k is not None else cur[2], cur[3])
+        tags = cur[3]
+        if is_hist_copy(k, elem):
+            # the explicit-loop form of clone().drain().filter().collect(): a pair of the input history copied unchanged
+            tags = tags | frozenset(["history_filtered", "history_copy"])
+        new = ("coll", join(cur[1], e2), join(cur[2], k) if k is not None else cur[2], tags)
         root_av = I.load_root(state, a[1])
         I.store_root(state, a[1], av_set(root_av, a[2], new, I.uni) if a[2] else new)
+
+
+def is_hist_copy(k, val):
+    """key is a key of the input history and value a value of the input history, both unmodified"""
+    return (k is not None and val is not None and k[0] == "str" and val[0] == "str" and set(k[1]) == {("histkey",)}
+            and set(val[1]) == {("hist", frozenset([("anykey",)]))})
+
+
+def with_state_constraint(I, state, av):
+    """a job key that enters a local collection remembers the states its job can be in at that moment (the
+    explicit-loop counterpart of the filter predicate summary)"""
+    if av is not None and av[0] == "key" and av[1] is not None and av[3] is None:
+        hk = ("job", av[1])
+        cell = state.heap.get(hk)
+        if cell is not None and cell[0] == "adt":
+            stv = adt_variants(cell)[0][I.layout.state_field]
+            if stv[0] == "fin" and len(stv[2]) < len(I.js_full[2]):
+                return ("key", av[1], av[2], strip_links(stv))
+    return av
 
 
 def anonymise(av):
@@ -639,6 +668,15 @@ def anonymise(av):
     return av
 
 
+def template_filters(tmpl):
+    x = tmpl
+    while isinstance(x, tuple) and x and x[0] in ("filter", "map", "filter_map", "enum"):
+        if x[0] in ("filter", "filter_map"):
+            return True
+        x = x[1]
+    return False
+
+
 def record_signal_push(I, state, frame, bi, span, container, sig, fresh):
     L = I.layout
     if sig[0] == "adt" and sig[1] == L.signal_ty:
@@ -649,6 +687,7 @@ def record_signal_push(I, state, frame, bi, span, container, sig, fresh):
                   dict(fn=frame.body.name, bb=bi, span=span, container=container,
                        kinds=kind[2] if kind[0] == "fin" else I.uni.full(L.signalkind)[2],
                        key=(node[1], node[2]) if node[0] == "key" else (None, frozenset()),
+                       total_iter=getattr(I, "total_iter", 0) > 0,
                        stack=frame.stack, **ctx(I, state)))
         return True
     return False
@@ -683,13 +722,31 @@ def m_extend(I, state, frame, bi, t, args, span):
     a = args[0]
     src = deref(I, state, args[1])
     elem = None
+    sf = self_field_of(I, a)
     if src[0] == "coll":
         elem = src[1]
+        if elem is not None and elem[0] == "adt" and elem[1] == I.layout.signal_ty:
+            I.total_iter = getattr(I, "total_iter", 0) + 1
+            cont = "queue" if sf == I.layout.signals_field else ("local", a[1] if a[0] == "ref" else None)
+            record_signal_push(I, state, frame, bi, span, cont, elem, False)
+            I.total_iter -= 1
     elif src[0] == "iter":
-        rs = instantiate(I, state.copy(), frame, bi, src[1], span, anonymous=True)
-        for (e, _s) in rs:
-            elem = join(elem, e)
-    sf = self_field_of(I, a)
+        filtered = template_filters(src[1])
+        I.total_iter = getattr(I, "total_iter", 0) + (0 if filtered else 1)
+        try:
+            rs = instantiate(I, state.copy(), frame, bi, src[1], span, anonymous=False)
+            from interp import join_state
+            merged = None
+            for (e, s1) in rs:
+                if e[0] == "adt" and e[1] == I.layout.signal_ty:
+                    cont = "queue" if sf == I.layout.signals_field else ("local", a[1] if a[0] == "ref" else None)
+                    record_signal_push(I, s1, frame, bi, span, cont, e, True)
+                elem = join(elem, anonymise(e))
+                merged = join_state(merged, s1)
+            if merged is not None:
+                state = join_state(state, merged)
+        finally:
+            I.total_iter = getattr(I, "total_iter", 1) - (0 if filtered else 1)
     I.rec.put("extend", I.sitekey(frame, bi, -1),
               dict(fn=frame.body.name, bb=bi, span=span, target=("self", sf) if sf is not None else ("local",),
                    elem=elem, src=args[1] if args[1][0] == "ref" else None, stack=frame.stack))
@@ -907,6 +964,16 @@ def m_retain(I, state, frame, bi, t, args, span):
             st = out
     I.rec.put("retain", I.sitekey(frame, bi, -1), dict(fn=frame.body.name, bb=bi, span=span, stack=frame.stack))
     return [(TOP, st)]
+
+
+@model("std::vec::Vec::<T, A>::remove", "std::vec::Vec::<T, A>::swap_remove")
+def m_vec_remove(I, state, frame, bi, t, args, span):
+    """selective removal of one element: the explicit-loop form of retain"""
+    v = deref(I, state, args[0])
+    I.rec.put("retain", I.sitekey(frame, bi, -1), dict(fn=frame.body.name, bb=bi, span=span, stack=frame.stack, form="remove"))
+    if v[0] == "coll" and v[1] is not None:
+        return instantiate(I, state, frame, bi, ("av", v[1]), span)
+    return [(TOP, state)]
 
 
 @model("<std::vec::Vec<T, A> as std::ops::Deref>::deref", "<std::vec::Vec<T, A> as std::ops::DerefMut>::deref_mut",
@@ -1340,8 +1407,15 @@ def eq_model(negate):
                 res = set(not r for r in res)
                 links = [(l[0], l[1], l[3], l[2]) for l in links]
             return [(("fin", BOOL, frozenset((1,) if r else (0,) for r in res), tuple(links)), state)]
-        I.rec.put("cmp", I.sitekey(frame, bi, -1),
-                  dict(fn=frame.body.name, bb=bi, span=span, a=va, b=vb, negate=negate, stack=frame.stack, **ctx(I, state)))
+        def strish(x):
+            if x[0] == "str":
+                return True
+            if x[0] == "adt" and x[1] in (OPTION, "tuple"):
+                return any(strish(f) for _v, fs in x[2] for f in fs)
+            return False
+        if strish(va) or strish(vb):
+            I.rec.put("cmp", I.sitekey(frame, bi, -1),
+                      dict(fn=frame.body.name, bb=bi, span=span, a=va, b=vb, negate=negate, stack=frame.stack, **ctx(I, state)))
         return [(BOOL_TOP, state)]
     return f
 
@@ -1417,9 +1491,14 @@ def m_for_each(I, state, frame, bi, t, args, span):
     from interp import join_state
     it = deref(I, state, args[0]) if args[0][0] == "ref" else args[0]
     merged = state.copy()
-    for (e, s1) in each_element(I, state, frame, bi, it, span):
-        for (rv, s2) in call_closure(I, s1, frame, bi, args[1], [e], span):
-            merged = join_state(merged, s2)
+    filtered = it[0] == "iter" and template_filters(it[1])
+    I.total_iter = getattr(I, "total_iter", 0) + (0 if filtered else 1)
+    try:
+        for (e, s1) in each_element(I, state, frame, bi, it, span):
+            for (rv, s2) in call_closure(I, s1, frame, bi, args[1], [e], span):
+                merged = join_state(merged, s2)
+    finally:
+        I.total_iter = getattr(I, "total_iter", 1) - (0 if filtered else 1)
     return [(TOP, merged)]
 
 
@@ -1427,11 +1506,14 @@ def m_for_each(I, state, frame, bi, t, args, span):
 def m_find(I, state, frame, bi, t, args, span):
     it = deref(I, state, args[0]) if args[0][0] == "ref" else args[0]
     res = [(adt(OPTION, {0: ()}), state.copy())]
+    mt = mf = False
     for (e, s1) in each_element(I, state, frame, bi, it, span):
         root = ("findelem", frame.fid, bi)
         s1.heap[root] = e
         for (rv, s2) in call_closure(I, s1, frame, bi, args[1], [ref(root, ())], span):
             if rv[0] == "fin" and rv[1] == BOOL:
+                mt = mt or (1,) in rv[2]
+                mf = mf or (0,) in rv[2]
                 if (1,) not in rv[2]:
                     continue
                 I.apply_links(s2, rv[3], 1)
@@ -1441,7 +1523,11 @@ def m_find(I, state, frame, bi, t, args, span):
                 if 1 in vs:
                     res.append((some(vs[1][0]), s2))
             else:
+                mt = mf = True
                 res.append((some(e), s2))
+    I.rec.put("quantifier", I.sitekey(frame, bi, -1),
+              dict(fn=frame.body.name, bb=bi, span=span, all=False, find=True, iter=it if it[0] == "iter" else None,
+                   may_true=mt, may_false=mf, stack=frame.stack))
     return res
 
 
